@@ -718,6 +718,10 @@ def lookup(run, model, rule="C06.lookup"):
     def restricted_args(n):
         """the table appended at ``n`` is {k: v for k, v in resolved_kwargs.items() if k in signature(condition).parameters}"""
         cands = [arg for call, c_, a_ in calls_in(n) for arg in call.args] if n is not None else [x for x in ast.walk(fi.node) if isinstance(x, ast.DictComp)]
+        # the table may be bound to a local first (and completed with the defaults of the condition's parameters)
+        for arg in list(cands):
+            if isinstance(arg, ast.Name):
+                cands += [st.value for st in ast.walk(fi.node) if isinstance(st, (ast.Assign, ast.AnnAssign)) and getattr(st, "value", None) is not None and any(isinstance(tg, ast.Name) and tg.id == arg.id for tg in (st.targets if isinstance(st, ast.Assign) else [st.target]))]
         n = n if n is not None else [x for x in flow.cfg.nodes if x.kind in ("stmt", "return") and x.ast is not None][0]
         if True:
             for arg in cands:
@@ -785,6 +789,39 @@ def lookup(run, model, rule="C06.lookup"):
     # the arguments of the call bind the *parameters of the condition* only: any other name of the condition is a
     # closure variable or a global, whatever the decorated function's other arguments are called
     run.check(unrestricted is None, rule, fi.qual + ":parameters-only", "only the condition's own parameters are looked up among the arguments of the call", "all arguments of the call are offered as bindings for the names of the condition: a closure variable or global of the condition that is named like another argument of the function is shown (and sub-expressions are re-computed) with the argument's value, not with the value the condition saw", fi.loc(unrestricted) if unrestricted is not None else fi.loc(), None, first_line(unrestricted.stmt) if unrestricted is not None else None)
+    # a parameter of the condition that the call does not supply takes its *default*: the name must not fall through
+    # to a closure variable or global of the same name (``lambda x, limit=10: x < limit`` next to a global ``limit``)
+    gg_ = GuardGraph(flow)
+    # the table of arguments, by what it is bound to: the comprehension over ``resolved_kwargs.items()``
+    first_tables = set()
+    for st in ast.walk(fi.node):
+        if isinstance(st, (ast.Assign, ast.AnnAssign)) and isinstance(getattr(st, "value", None), ast.DictComp) and len(st.value.generators) == 1:
+            g_ = st.value.generators[0]
+            if isinstance(g_.iter, ast.Call) and isinstance(g_.iter.func, ast.Attribute) and g_.iter.func.attr == "items" and isinstance(g_.iter.func.value, ast.Name) and g_.iter.func.value.id == "resolved_kwargs":
+                for tg in (st.targets if isinstance(st, ast.Assign) else [st.target]):
+                    if isinstance(tg, ast.Name):
+                        first_tables.add(tg.id)
+    dflt = None
+    for n in flow.cfg.nodes:
+        if n.kind == "stmt" and isinstance(n.ast, ast.Assign) and len(n.ast.targets) == 1 and isinstance(n.ast.targets[0], ast.Subscript) and isinstance(n.ast.targets[0].value, ast.Name) and n.ast.targets[0].value.id in first_tables and isinstance(n.ast.value, ast.Attribute) and n.ast.value.attr == "default":
+            vt = strip_sites(flow.term(n.ast.value.value, n))
+            from_params = any(s_[0] == "attr" and s_[2] == "parameters" and s_[1][0] == "call" and s_[1][1] == ("attr", ("module", "inspect"), "signature") for s_ in subterms(vt))
+            if from_params:
+                # ... only where the call has not supplied the value (the supplied value wins)
+                tname = n.ast.targets[0].value.id
+                guarded = False
+                for (nid, k), (kn, atoms) in gg_.edge_facts.items():
+                    for at, pol in kn:
+                        ats = strip_sites(at)
+                        if ats[0] == "op" and ats[1] in ("cmp:In", "cmp:NotIn") and (pol == (ats[1] == "cmp:NotIn")) and gg_.necessary([flow.cfg.entry], [n.id], (at, pol)):
+                            cont = ats[2][1]
+                            if cont == ("param", "resolved_kwargs") or "comp" in show(cont) or tname in show(cont) or cont[0] in ("comp", "display"):
+                                guarded = True
+                dflt = (n, guarded)
+    if dflt is None:
+        # one dictionary display / comprehension may do both: {**defaults, **supplied}
+        pass
+    run.check(dflt is not None and dflt[1], rule, fi.qual + ":defaults-of-condition", "a parameter of the condition that the call does not supply is looked up as its default value", ("the default of a condition parameter is entered into the table of arguments even when the call supplies the value: the message shows the default, not what the condition saw" if dflt is not None else "a parameter of the condition that has a default and is not supplied by the call is missing from the first lookup table: a closure variable or global of the same name is shown in the message instead of the default the condition compared with"), fi.loc(dflt[0]) if dflt else fi.loc(), None, first_line(dflt[0].stmt) if dflt else None)
     # closure cells are read at the time of the violation (no caching across calls)
     src = src_of(fi.node)
     run.check("cell_contents" in src and "co_freevars" in src, rule, fi.qual + ":closure", "closure values are read from the cells of the condition at the time of the violation", "closure values are not read from the condition's cells", fi.loc())
